@@ -27,7 +27,7 @@ def parseTable (s : String) : Option (List LineTbl) :=
 
 def parseInput (kind data : String) : Option Input :=
   if kind = "s" then (parseCps data).map Input.str
-  else if kind = "l" then
+  else if kind = "l" ∨ kind = "t" then     -- list of lines / any other iterable of lines
     if data = "!" then some (Input.lines []) else ((data.splitOn ";").mapM parseCps).map Input.lines
   else none
 
